@@ -115,3 +115,43 @@ Definition configs (ks : list start) : list (start * (N * N) * bool) :=
 
 Definition check_config (cfg : start * (N * N) * bool) : bool :=
   let '(k, (pa, pb), w) := cfg in explore 30 (start_state k pa pb w).
+
+(* ---------- C01: agreement at the end of every schedule ----------
+   the same exploration with a stronger goal: both sides encrypted, the same session id, complementary halves of it to
+   show, each side reports the other's long-term key, and each side's record of the peer's newest D-H key is the key the
+   peer holds under that id (so that each can read what the other sends, C04) - also when queued texts have already been
+   released and answered by the time the network is quiet *)
+Definition opt_eqbN (a b : option N) : bool :=
+  match a, b with Some x, Some y => x =? y | None, None => true | _, _ => false end.
+(* the key a party holds under one of its own key ids (current or previous) *)
+Definition own_key_at (k : keyctx) (id : N) : option N :=
+  if id =? ourKeyID k then ourCurrent k else if id + 1 =? ourKeyID k then ourPrevious k else None.
+Definition goal_agree (x : xstate) : bool :=
+  let a := nth_conv (x_sys x) 1 in
+  let b := nth_conv (x_sys x) 2 in
+  goal x &&
+  opt_eqbN (c_theirKey a) (Some (c_ourKey b)) && opt_eqbN (c_theirKey b) (Some (c_ourKey a)) &&
+  negb (Bool.eqb (c_sentRevealSig a) (c_sentRevealSig b)) &&
+  opt_eqbN (theirCurrent (c_keys a)) (own_key_at (c_keys b) (theirKeyID (c_keys a))) &&
+  opt_eqbN (theirCurrent (c_keys b)) (own_key_at (c_keys a) (theirKeyID (c_keys b))).
+
+Fixpoint explore_agree (fuel : nat) (x : xstate) : bool :=
+  if quiescent x then goal_agree x
+  else match fuel with
+       | O => false
+       | S f => forallb (fun mv => explore_agree f (xapply mv x)) (enabled x)
+       end.
+Inductive all_schedules_agree : nat -> xstate -> Prop :=
+| ag_quiet n x : quiescent x = true -> goal_agree x = true -> all_schedules_agree n x
+| ag_step n x : quiescent x = false -> enabled x <> [] ->
+    (forall mv, In mv (enabled x) -> all_schedules_agree n (xapply mv x)) -> all_schedules_agree (S n) x.
+Theorem explore_agree_sound n : forall x, explore_agree n x = true -> all_schedules_agree n x.
+Proof.
+  induction n as [|n IH]; intros x H; cbn [explore_agree] in H.
+  - destruct (quiescent x) eqn:Q; [apply ag_quiet; assumption | discriminate].
+  - destruct (quiescent x) eqn:Q; [apply ag_quiet; assumption|].
+    apply ag_step; [exact Q | apply enabled_nonempty; exact Q|].
+    intros mv Hin. apply IH. rewrite forallb_forall in H. apply H. exact Hin.
+Qed.
+Definition check_config_agree (cfg : start * (N * N) * bool) : bool :=
+  let '(k, (pa, pb), w) := cfg in explore_agree 30 (start_state k pa pb w).
